@@ -195,6 +195,21 @@ add("C13", "E1",
     "text shows.",
     "DESIGN.md §4 C13")
 
+add("C20", "E1",
+    "exhaustive enumeration of operand codes, measurement grid and asmbench block structures vs. reference decoder/snapper",
+    "Benchmark files are generated for every documented operand code of both ISAs (all memory code "
+    "subsets) at arity 1-2 and a covering family at arity 3, for mnemonics new to and present in a "
+    "synthetic target model in both cases, for measurements on a grid around every snapping point "
+    "(1/n x {0.90 ... 1.10}, n = 1..10; k x the same, k in {1, 2, 4, 12}; far-off values), for ibench "
+    "TP/LT lines in both orders and alone, and for all asmbench files of <= 3 blocks over "
+    "{well-formed, blank line missing, extra line, truncated}; each goes through the real "
+    "import_benchmark_output and the emitted YAML is parsed back and compared with a reference "
+    "decoder and snapper.",
+    "Trusted: reference decoder/snapper in mc/checks/c20.py (from README.rst). Measurements exactly on "
+    "a 5 % boundary are excluded. D13 (form with an existing mnemonic of equal arity is lost, x86) is "
+    "a listed known finding.",
+    "DESIGN.md §4 C20")
+
 NOT_YET = {}
 
 def main():
